@@ -8,10 +8,9 @@ from layers.integ import layer_int
 
 MODULE = 'Flowdyn.Props.C08'
 THEOREMS = ['Flowdyn.C07.' + t for t in ['sideSnaps_core', 'iteration_core', 'loop_core', 'loop_maxit', 'loop_indep_of_saves_and_monitors',
-                                           'run_indep_of_saves_and_monitors', 'run_eq_loop_core', 'restart_split']]
-AUDIT_IMPORTS = ['Flowdyn.Props.C07']
-PARTIAL = {"monitors": "the complete characterisation of the monitor logs (exactly the multiples of the frequency, with iteration/time/value of the trajectory state) is checked by L-driver and the sweep; theorem pending",
-           "bit-identical": "bitwise repeatability is a statement about binary64 determinism: observed on the implementation, a corollary of functional purity in the model"}
+                                           'run_indep_of_saves_and_monitors', 'run_eq_loop_core', 'restart_split']] + ['Flowdyn.C08.iteration_monInv', 'Flowdyn.C08.run_monitors']
+AUDIT_IMPORTS = ['Flowdyn.Props.C07', 'Flowdyn.Props.C08b']
+PARTIAL = {"bit-identical": "bitwise repeatability is a statement about binary64 determinism: observed on the implementation, a corollary of functional purity in the model"}
 LEVEL_NOTE = "driver state machine: the trajectory is `adv` iterated, independent of save times and monitors (side steps restore the solver state), and solve N + restart M = solve N+M; hidden solver state is explicit in the model"
 
 ALL = ['explicit', 'rk2', 'rk3ssp', 'rk4', 'lsrk25bb', 'lsrk4', 'implicit', 'cranknicolson', 'gear']
